@@ -48,8 +48,8 @@ Theorem C15_generated_add_is_append : forall (s : sst) (rows : table) (sync : bo
 Proof. intros. rewrite bridge_sadd_flow, bridge_ssave_flow. apply sadd_flow_is_sstep. Qed.
 
 Theorem C15_code_tie : gen_sadd_flow = model_sadd_flow /\ gen_ssave_flow = model_save_flow /\ gen_sload_rule = model_load_rule
-  /\ gen_label_flow = model_label_flow.
-Proof. exact (conj bridge_sadd_flow (conj bridge_ssave_flow (conj bridge_sload_rule bridge_label_flow))). Qed.
+  /\ gen_label_flow = model_label_flow /\ gen_sampler_draw_is_transcribed = true.
+Proof. exact (conj bridge_sadd_flow (conj bridge_ssave_flow (conj bridge_sload_rule (conj bridge_label_flow bridge_sampler_draw)))). Qed.
 
 Example C15_example :
   let s1 := sstep (mk_sst None None) (SAdd [[1; 10]; [2; 20]] true) in
